@@ -390,6 +390,9 @@ func (n ambassador) findKeyByThumbprint(thumbPrint []byte, didDocumentAuthKeys [
 			// JWK() returns nil without an error when the verification method has no publicKeyJwk
 			return nil, errors.New("unable to generate JWK from verificationMethod: publicKeyJwk is missing")
 		}
+		if err = checkPublicKey(keyAsJWK); err != nil {
+			return nil, fmt.Errorf("unable to generate JWK from verificationMethod: invalid JWK: %w", err)
+		}
 		documentThumbprint, err := keyAsJWK.Thumbprint(thumbprintAlg)
 		if err != nil {
 			return nil, fmt.Errorf("unable to generate DID document signing key thumbprint: %w", err)
